@@ -235,7 +235,7 @@ def gen_calls(ctx):
     SYMBOLS.update(ctx.run_impl("sasa_impl.py", {"cases": []})["symbols"])
     quick = ctx.tier == "quick"
     nsys = 90 if quick else 2500
-    budget = 150.0 if quick else 3000.0          # estimated seconds of vm_compute (spread over 4 processes)
+    budget = 100.0 if quick else 1500.0          # estimated seconds of vm_compute (spread over 4 processes)
     pts = sphere_points(ctx)
     groups = []
     skipped = 0
@@ -279,6 +279,18 @@ def gen_calls(ctx):
                       "probe": 0.14, "nsp": 96, "change": None, "sel": None})
     groups.insert(1, {"kind": "isolated", "elems": ["C"], "resid": [0], "nres": 1, "grid": GRID, "xyz": [[[0, 0, 0]]],
                       "probe": 0.14, "nsp": 960, "change": None, "sel": None})
+    # error classes and corner cases of sasa.py (cheap for the model: no geometry is evaluated on the error paths)
+    far = [[[0, 0, 0], [_grid(0.2), 0, 0], [_grid(0.4), 0, 0], [0, _grid(0.25), 0]]]
+    groups.append({"kind": "err-key", "elems": ["C", "VS", "O", "N"], "resid": [0, 0, 1, 1], "nres": 2, "grid": GRID, "xyz": far,
+                   "probe": 0.14, "nsp": 7, "change": None, "sel": None})
+    groups.append({"kind": "err-value", "elems": ["C", "H", "O", "N"], "resid": [0, 0, 2, 2], "nres": 3, "grid": GRID, "xyz": far,
+                   "probe": 0.14, "nsp": 7, "change": None, "sel": None})
+    groups.append({"kind": "err-index", "elems": ["C", "H", "O", "N"], "resid": [0, 0, 1, 1], "nres": 2, "grid": GRID, "xyz": far,
+                   "probe": 0.14, "nsp": 7, "change": None, "sel": [1, 6]})
+    groups.append({"kind": "empty-last-residue", "elems": ["C", "H", "O", "N"], "resid": [0, 0, 1, 1], "nres": 3, "grid": GRID,
+                   "xyz": far, "probe": 0.05, "nsp": 7, "change": {"Fe": 0.1}, "sel": [3, 0]})
+    groups.append({"kind": "empty-selection", "elems": ["C", "H", "O", "N"], "resid": [0, 0, 1, 1], "nres": 2, "grid": GRID,
+                   "xyz": far, "probe": 0.0, "nsp": 7, "change": None, "sel": []})
     return groups
 
 
@@ -286,21 +298,21 @@ def gen_calls(ctx):
 def radii_float(g):
     tbl = get_table()
     ch = g.get("change") or {}
-    return np.array([float(ch[e]) if e in ch else float(tbl[e]) for e in g["elems"]], dtype=np.float64) + float(g["probe"])
+    return np.array([float(ch[e]) if e in ch else float(tbl.get(e, 0.2)) for e in g["elems"]], dtype=np.float64) + float(g["probe"])
 
 
 def radii_units(g):
     tu = table_units(get_table())
     ch = g.get("change") or {}
     pu = int(round(float(g["probe"]) * UNM))
-    return [(int(round(float(ch[e]) * UNM)) if e in ch else tu[e]) + pu for e in g["elems"]]
+    return [(int(round(float(ch[e]) * UNM)) if e in ch else tu.get(e, UNM // 5)) + pu for e in g["elems"]]
 
 
 def analyse(g, pts64):
     """Per frame: ambiguous-point count per atom (guard band) and an independent float64 count per atom."""
     r = radii_float(g)
     n = len(r)
-    sel = range(n) if g["sel"] is None else sorted(set(g["sel"]))
+    sel = range(n) if g["sel"] is None else sorted(i for i in set(g["sel"]) if 0 <= i < n)
     res = []
     for fr in g["xyz"]:
         x = (np.array(fr, dtype=np.float64) / 2 ** GRID).astype(np.float32).astype(np.float64)
@@ -490,7 +502,9 @@ def coq_check(ctx, pts, units, procs=4):
 def run_groups(ctx, groups):
     pts = sphere_points(ctx)
     res = impl_calls(ctx, groups)
+    ctx.log("implementation calls done")
     analyses = [analyse(g, pts[g["nsp"]][0]) for g in groups]
+    ctx.log("guard-band analysis done")
     jobs = []      # (gi, mode, thr, variant)
     units = []     # one model evaluation each: (cost, nsp, call text, [(job index, expected text)])
     excluded = 0
@@ -512,7 +526,9 @@ def run_groups(ctx, groups):
                     checks.append((len(jobs) - 1, coq_expected(intervals(g, mode, o["rows"], an, g["nsp"],
                                                                          carry_rows=res[(gi, "atom", thr)]["rows"]))))
             units.append((est_cost(g, an), g["nsp"], coq_call(g, mode), checks))
+    ctx.log("model evaluations: %d, estimated %.0f s of vm_compute" % (len(units), sum(u[0] for u in units)))
     bad, errs = coq_check(ctx, pts, units)
+    ctx.log("model evaluations done")
     if errs:
         ctx.break_("correspondence:coqc-evaluation", "\n".join(errs))
         return
@@ -662,8 +678,8 @@ def two_sphere_checks(ctx):
             err_pts = abs(o["rows"][0][i] - exact) / (4 * math.pi * rf[i] ** 2 / n)
             # quadrature bound in points: the spiral's y coordinates are equally spaced, so along the y axis the
             # count is off by at most one point (+1 for float rounding at the rim); in a general direction the
-            # discrepancy of the golden spiral is bounded here by 0.6*sqrt(n)+2 (measured <= 0.35*sqrt(n))
-            bound = 2.0 if g["kind"] == "cap_y" else 0.6 * math.sqrt(n) + 2
+            # discrepancy of the golden spiral is bounded here by 0.4*sqrt(n)+2 (measured <= 0.2*sqrt(n))
+            bound = 2.0 if g["kind"] == "cap_y" else 0.4 * math.sqrt(n) + 2
             worst[g["kind"]] = max(worst[g["kind"]], err_pts / (1.0 if g["kind"] == "cap_y" else math.sqrt(n)))
             ctx.count(case_of(g, "atom", "1"), nontrivial=True, bucket="two-sphere/%s" % g["kind"])
             if err_pts > bound:
@@ -722,7 +738,28 @@ def subset_and_frame_checks(ctx, groups, res):
                                "threads": thr, "frames_gt_1": True, "kind": "frame_alone"})
 
 
+def clash_probe(ctx):
+    """Two atoms 4*2^-20 nm apart (< 1e-5 nm): the kernel prints an error and calls exit(1); the model says Exit1.
+    Outside the property's quantifier (no coincident atoms) - checked only so that the modelled guard is the real one."""
+    pts = sphere_points(ctx)
+    g = {"kind": "clash", "elems": ["C", "C"], "resid": [0, 0], "nres": 1, "grid": GRID, "xyz": [[[0, 0, 0], [4, 0, 0]]],
+         "probe": 0.14, "nsp": 7, "change": None, "sel": None}
+    c = {k: g[k] for k in ("elems", "resid", "nres", "xyz", "grid", "probe", "nsp", "change", "sel")}
+    c["mode"] = "atom"
+    try:
+        ctx.run_impl("sasa_impl.py", {"cases": [c]}, env={"OMP_NUM_THREADS": "1"})
+        died = False
+    except RuntimeError as e:
+        died = "rc=1" in str(e)
+    bad, errs = coq_check(ctx, pts, [(0.3, 7, coq_call(g, "atom"), [(0, "(inr 4%nat)" if died else "(inr 0%nat)")])], procs=1)
+    ctx.count(case_of(g, "atom", "1"), nontrivial=False, bucket="clash-guard")
+    if errs or bad:
+        ctx.break_("correspondence:sasa-model[clash guard]", "implementation %s on atoms 4e-6 nm apart, model disagrees %s"
+                   % ("exits with status 1" if died else "does not exit", errs[:1]))
+
+
 def correspond(ctx):
+    clash_probe(ctx)
     groups = gen_calls(ctx)
     ctx.log("groups:", len(groups))
     r = run_groups(ctx, groups)
